@@ -1153,14 +1153,18 @@ class Extractor:
                 k += 1
             is_hash = ("HashMap" in ty) or ("HashSet" in ty)
             stab = any("serialize_with" in a and "stabilize_" in a for a in attrs)
-            fields.append((fname.lstrip("_"), is_hash, stab))
+            skips = any(a.startswith("serde") and "skip" in a for a in attrs)
+            fields.append((fname.lstrip("_"), is_hash, stab, skips))
             attrs = []
             q = k + 1
         self.items.append(dict(file=parts[0], item="fields of %s %s" % (kind, name), lines="%d" % (src.text.count("\n", 0, toks[it["kw"]].start) + 1),
                                sha256=hashlib.sha256(src.text[toks[it["start"]].start:toks[it["end"]].end].encode()).hexdigest()[:16], rules={}, under_contract=False))
-        rows = ", ".join('("%s"@, %s, %s)' % (n, "true" if h else "false", "true" if st else "false") for (n, h, st) in fields)
+        rows = ", ".join('("%s"@, %s, %s)' % (n, "true" if h else "false", "true" if st else "false") for (n, h, st, sk) in fields)
+        skips = ", ".join("true" if sk else "false" for (n, h, st, sk) in fields)
         return ("// field list of `%s %s` computed from %s (leading underscores removed)\n"
-                "pub open spec fn %s() -> Seq<(Seq<char>, bool, bool)> { seq![%s] }") % (kind, name, parts[0], ident, rows)
+                "pub open spec fn %s() -> Seq<(Seq<char>, bool, bool)> { seq![%s] }\n"
+                "// per field: does a serde attribute let the field be skipped (skip, skip_serializing[_if], skip_deserializing)?\n"
+                "pub open spec fn %s_skips() -> Seq<bool> { seq![%s] }") % (kind, name, parts[0], ident, rows, ident, skips)
 
     def _angle_depth0(self, toks, lo, q):
         """is the comma at q outside any <...> generic argument list (scanning from the field start)?"""
